@@ -340,6 +340,17 @@ def run_refusals(spec, rec):
                 probes.append(('invalid-or-overlong-value:%s' % dt,
                                lambda dt=dt, bad=bad: core.SubComponent(datatype=dt, value=bad, version=v,
                                                                         validation_level=1)))
+        # one character more than the documented maximum length of every textual base datatype of the version, with the
+        # level given explicitly (the process default stays TOLERANT): by sub-component and by the factory
+        from hl7apy.factories import datatype_factory
+        for dt, lim in (('ST', 999 if v == '2.6' else 199), ('IS', 20), ('GTS', 199), ('TN', 199), ('FT', 65536),
+                        ('TX', 65536)):
+            if dt in tables.base_datatypes(v):
+                probes.append(('invalid-or-overlong-value:%s:one-over-the-maximum-length' % dt,
+                               lambda dt=dt, lim=lim: core.SubComponent(datatype=dt, value='7' * (lim + 1), version=v,
+                                                                        validation_level=1)))
+                probes.append(('invalid-or-overlong-value:%s:one-over-the-maximum-length:factory' % dt,
+                               lambda dt=dt, lim=lim: datatype_factory(dt, '7' * (lim + 1), v, 1)))
         # values spelled with digits outside ASCII are no HL7 numbers, sequence ids or dates
         for dt, bad in (('NM', u'\u0661\u0662\u0663'), ('NM', u'1\u0665'), ('NM', u'\uff11.\uff15'), ('SI', u'\u0967'),
                         ('DT', u'\uff12\uff10\uff12\uff10\uff10\uff11\uff10\uff11'), ('TM', u'\u0661\u0662'),
